@@ -105,6 +105,16 @@ func c46Jobs(thorough bool, dir string, noPoll map[string]bool) []Job {
 		if thorough {
 			js[len(js)-1].Shards = 16
 		}
+		// failure patterns that interact with the 16-slot semaphore: sixteen failures before / after the one loadable
+		// reference, everything failing, nothing failing (default schedule and, thorough, one deviation)
+		for _, mask := range []int{0, 0xFFFF, 0x1FFFE, 0x1FFFF} {
+			eb := []int{0}
+			if thorough {
+				eb = []int{0, 1}
+			}
+			add(Params{Remote: remote, N: 17, Fail: mask, Variant: "plain", Cache: remote}, eb, 0)
+			js[len(js)-1].Deviation = true
+		}
 	}
 	for n := 3; n >= 1; n-- {
 		for _, remote := range []bool{false, true} {
